@@ -9,6 +9,10 @@
   `protoId tcb d` is the protocol identification (no client info), `respond` the responder call,
   `Endpoints ci` = addresses and ports present and well-formed, `bump ci n` = local port moved by `n`.
   Wall-clock timestamps come from `env`, which is the same on both sides of every statement.
+  The DNS mask delimits the names of a reply label by label (`nameEnd`, as the repaired responder and
+  RFC 1035 do; before the repair of the DNS dissectors it was "up to the first 0x00" — with that reading
+  `dns_reply_masked` is false of the repaired responder for a query with a 0x00 inside a label, see the
+  `a\0b` example below).
 -/
 import Masscanned.Proofs.C19.Handle
 import Masscanned.Proofs.Bytes
@@ -476,6 +480,19 @@ def dnsRepB : Bytes := dnsRepA.take 58 ++ [0, 0]
 example : (protoRepl exCfg exEnv (ciA 17) none dnsReq).toOption = some (ciA 17, none, some dnsRepA) ∧
     (protoRepl exCfg exEnv (ciB 17) none dnsReq).toOption = some (ciB 17, none, some dnsRepB) ∧
     masked .dns dnsRepA = some (dnsRepA.take 58) ∧ masked .dns dnsRepB = some (dnsRepA.take 58) := by
+  decide +kernel
+
+/-- a DNS query whose label contains 0x00 (`a\0b IN A`) sent to two IPv4 addresses: both replies echo the
+    name `03 61 00 62 00`, the mask keeps header, question, owner name/type/class/TTL of the answer and
+    blanks RDLENGTH+RDATA; the replies are `sameReply .dns` although they differ (in the RDATA only) -/
+example :
+    let q : Bytes := [0x12, 0x34, 1, 0, 0, 1, 0, 0, 0, 0, 0, 0,   3, 0x61, 0, 0x62, 0,   0, 1, 0, 1]
+    let r1 := (dnsParse q).bind (dnsRepl { ipDst := some (.v4 [10, 0, 0, 1]) })
+    let r2 := (dnsParse q).bind (dnsRepl { ipDst := some (.v4 [10, 0, 0, 2]) })
+    r1.bind (masked .dns) = some
+      [0x12, 0x34, 0x85, 0, 0, 1, 0, 1, 0, 0, 0, 0,   3, 0x61, 0, 0x62, 0,   0, 1, 0, 1,
+       3, 0x61, 0, 0x62, 0,   0, 1, 0, 1, 0, 0, 168, 192] ∧
+    r1 ≠ r2 ∧ sameReply .dns r1 r2 = true ∧ sameUpToEndpoint r1 r2 = true := by
   decide +kernel
 
 /-- **negative checks**: the relation rejects a difference in ANY byte outside the blanked fields — here the
